@@ -177,4 +177,24 @@ pub fn same_within_cond(a: &Out, b: &Out, sa: &spec::Stats, sb: &spec::Stats, sc
     (None, skipped)
 }
 
+/// per flat infoset of `prep`: the measured conditioning of its returned average strategy
+pub fn cond_by_flat_infoset(prep: &Prepared, st: &spec::Stats) -> [Vec<f64>; 2] {
+    [0, 1].map(|p| (0..prep.flat.info_actions[p].len()).map(|i| prep.align.info_rev[p][i].and_then(|di| st.avg_cond[p].get(di).copied()).unwrap_or(1.0)).collect())
+}
+
+/// compare two profiles on the same flat tree with the conditioning-aware tolerance; returns the
+/// first offending (player, infoset, difference, tolerance)
+pub fn profiles_differ(a: &Profile, b: &Profile, cond: &[Vec<f64>; 2], payoff_cond: f64, margin: f64) -> Option<(usize, usize, f64, f64)> {
+    for p in 0..2 {
+        for (i, (x, y)) in a[p].iter().zip(b[p].iter()).enumerate() {
+            let tol = avg_tol(cond[p].get(i).copied().unwrap_or(1.0), payoff_cond, margin);
+            let d = x.iter().zip(y.iter()).map(|(u, v)| (u - v).abs()).fold(0.0, f64::max);
+            if !(d <= tol) {
+                return Some((p, i, d, tol));
+            }
+        }
+    }
+    None
+}
+
 pub const ALL_LOGS: u32 = verif::LOG_DRAW | verif::LOG_VISIT | verif::LOG_STATE | verif::LOG_PASS;
